@@ -169,9 +169,17 @@ fn import_extension_fields(node: &mut Node, doc: &mut RustDocument, base_fields:
             }
         }
 
+        let has_sequence = base
+            .children()
+            .any(|n| n.is_element() && n.tag_name().name() == "sequence");
         for n in base.children().filter(Node::is_element) {
             if n.tag_name().name() == "sequence" {
                 import_sequence_node_fields(&mut base, doc, base_fields)?;
+            }
+
+            // an extension without a sequence can still declare attributes of its own
+            if !has_sequence && n.tag_name().name() == "attribute" {
+                base_fields.push(Field::try_from_node(n, doc)?);
             }
         }
     }
